@@ -52,7 +52,10 @@ RULE = ('Hypothesis: FileSpec (1-4 dims of length 1-4, 1-4 numeric variables '
         'or satisfies >=1 predicate (numpy.isclose rtol=1e-5 atol=1e-8 for '
         'values= on floats, cells within a factor 2 of that tolerance not '
         'judged); unmasked cells bit-identical, dtype kept; coordinate '
-        'variables untouched unless coords=True.  Non-trivial: a masked '
+        'variables untouched unless coords=True.  Thorough tier also runs the '
+        'functional forms core._functions.pncbo(op, a, b, coordkeys=...) and '
+        'mask_vals(f, "pred,value") (one scalar predicate, in place, '
+        'metadata keys untouched).  Non-trivial: a masked '
         'operand, or a cell producing or holding zero-division/inf/NaN, or '
         'an integer variable taking part, or >=2 predicates combined.  '
         'Distinct by sha1 of the case spec.')
@@ -63,7 +66,7 @@ ASSUMPTIONS = ['numpy ufuncs on the raw data are the reference for operator '
                'thresholds are finite; values=/equal= thresholds are '
                'integral when integer variables are present']
 BUDGET = {'quick': dict(examples=4000, max_s=240),
-          'thorough': dict(examples=80000, max_s=3000)}
+          'thorough': dict(examples=80000, max_s=1100)}
 
 FOPTS = dict(max_len=4, max_dims=4, max_vars=4, attrs=True, masked=True,
              char=False, special_floats=True, nonfinite=True, vrange=100,
@@ -185,8 +188,11 @@ def cases(draw, tier='quick'):
         if len(noncoord) >= 2 and draw(st.integers(0, 7)) == 0:
             drop = draw(st.sampled_from(noncoord))
             other['vars'] = [v for v in other['vars'] if v['name'] != drop]
+        entry = 'operator'
+        if tier == 'thorough' and draw(st.integers(0, 3)) == 0:
+            entry = 'pncbo'   # functional form, coordinate keys passed in
         return dict(kind='op', file=fs, other=other, op=op,
-                    coords=draw(coordsets(fs)))
+                    coords=draw(coordsets(fs)), entry=entry)
     if kind == 'eval':
         fs, operands = draw(twins(fs))
         byname = {v['name']: v for v in fs['vars']}
@@ -237,6 +243,13 @@ def cases(draw, tier='quick'):
             elif draw(st.integers(0, 3)) == 0:
                 x = x + 0.5
             preds.append([n, x])
+    if tier == 'thorough' and draw(st.integers(0, 3)) == 0:
+        scalar = [p_ for p_ in preds if p_[0] != 'invalid']
+        if scalar:
+            # command-line string form 'less,2.5': one scalar predicate,
+            # applied in place to every variable that is not a metadata key
+            return dict(kind='mask', file=fs, preds=scalar[:1], where=None,
+                        coords=[], coordsflag=False, entry='mask_vals')
     return dict(kind='mask', file=fs, preds=preds, where=where,
                 coords=coords, coordsflag=draw(st.booleans()))
 
@@ -391,7 +404,14 @@ def check_op(case):
             r.label('scalar-variable')
         plan[name] = ('op', res, emask, dontcare, va)
     r.nontrivial = nt
-    exc, out = attempt(lambda: fn(fa, fb))
+    if case.get('entry') == 'pncbo':
+        from PseudoNetCDF.core._functions import pncbo
+        r.label('entry:pncbo')
+        # the functional form takes the coordinate keys as an argument
+        fa = S.build_file(case['file'])
+        exc, out = attempt(lambda: pncbo(op, fa, fb, coordkeys=coords))
+    else:
+        exc, out = attempt(lambda: fn(fa, fb))
     if exc is not None:
         if numpy_raises:
             r.label('library-raises-with-numpy')
@@ -566,11 +586,23 @@ def check_mask(case):
     npred = len(preds) + (1 if where is not None else 0)
     r.label('npred:%d' % npred, 'coords=%s' % cflag)
     nt = npred >= 2
-    exc, out = attempt(lambda: f.mask(**kw))
+    if case.get('entry') == 'mask_vals':
+        from PseudoNetCDF.core import _functions as F
+        r.label('entry:mask_vals')
+        coords = [k for k in m.vars if k in F._metakeys]
+        n0, v0 = preds[0]
+        exc, out = attempt(lambda: F.mask_vals(f, '%s,%r' % (n0, v0)))
+    else:
+        exc, out = attempt(lambda: f.mask(**kw))
     plan = S.OD()
     numpy_raises = []
     for name, mv in m.vars.items():
         data, omask = raw(mv)
+        if case.get('entry') == 'mask_vals' and data.ndim == 0:
+            # the string form indexes var[:] and warns 'Cannot mask' for
+            # 0-d variables; not judged
+            r.label('mask_vals-0d-not-judged')
+            continue
         if name in coords and not cflag:
             plan[name] = (data, omask, np.zeros(data.shape, bool), 'coord')
             r.label('coord-untouched')
